@@ -196,6 +196,31 @@ def cases(rng, tier):
     return out
 
 
+def big_callback_cases(tier):
+    """a builtin that drives a SHORT callback over a LONG collection: the loop is in Go, every callback is a fresh entry
+    into the interpreter.  After the cancellation no further callback may run to its end, the call returns promptly and
+    with the context's error - also when the callback loop is the last thing the program does.  (Judged by the oracle
+    only: the all-schedules model explores callbacks over 1 - 3 items.)"""
+    out = []
+    n = 400000
+    head = "rc := chan()\nsc := chan()\nbig := []\nfor i := range %d { big.append(i) }\nk := 0\n" % n
+    calls = {
+        "each": "big.each(func(x) { if x == 0 { mark() }; tick() })",
+        "map": "big.map(func(x) { if x == 0 { mark() }; tick(); return x })",
+        "filter": "big.filter(func(x) { if x == 0 { mark() }; tick(); return true })",
+        "sorted": "sorted(big, func(a, b) { if k == 0 { mark() }; k = 1; tick(); return a < b })",
+    }
+    reps = 1 if tier == "quick" else 5
+    for c, call in calls.items():
+        for tail, rest in (("tail", ""), ("loop", "\nfor { tick() }")):
+            for inst, delay in (("mark", 0), ("mark", 20000)):
+                for r in range(reps):
+                    name = "bigcb-%s-%s" % (c, tail)
+                    out.append({"id": "%s/%s%s/%d" % (name, inst, "+20ms" if delay else "", r), "name": name, "shape": ("K",),
+                                "src": head + call + rest, "instant": inst, "delay_us": delay, "oracle_only": True})
+    return out
+
+
 def malformed(rng, tier):
     """the malformed stream: sources that never get to run (or fail at once); the part of the property that still
     applies is checked - the call returns, nothing keeps running"""
@@ -258,7 +283,7 @@ def run(res):
         return
     cov = res.coverage
     rng = C.Rng(res.seed)
-    cs = cases(rng, tier)
+    cs = cases(rng, tier) + big_callback_cases(tier)
     # every case twice: ended by an explicit cancel, and ended like an expired deadline (context.DeadlineExceeded)
     dl = []
     for c in cs:
@@ -273,6 +298,9 @@ def run(res):
     # model: all schedules of each (shape, instant)
     mkeys = {}
     for c in cs:
+        if c.get("oracle_only"):
+            c["mkey"] = None
+            continue
         c["mkey"] = "%s/%s" % (c["name"], model_instant(c))
         mkeys.setdefault(c["mkey"], "%s %s current %s" % (c["mkey"], model_instant(c), " ".join(toks(c["shape"]))))
     mlines = list(mkeys.values())
@@ -292,7 +320,7 @@ def run(res):
     # implementation: the cases in shards (each case measures its own goroutines, so shards are separate processes);
     # thorough repeats under GOMAXPROCS 1, 2 and the default
     bad = malformed(rng, tier)
-    ilines = [json.dumps({"id": c["id"], "src": program(c["shape"]), "instant": c["instant"], "delay_us": c["delay_us"],
+    ilines = [json.dumps({"id": c["id"], "src": c.get("src") or program(c["shape"]), "instant": c["instant"], "delay_us": c["delay_us"],
                           "mode": c.get("mode", "cancel")}) for c in cs]
     ilines += [json.dumps({"id": c["id"], "src": c["src"], "instant": c["instant"], "delay_us": 0}) for c in bad]
     procs = [None] if tier == "quick" else [None, "1", "2"]
@@ -352,8 +380,8 @@ def run(res):
             nomark = "NOMARK" in ec
             ec = ec.split(" ")[0]
             errhist[ec] = errhist.get(ec, 0) + 1
-            m = model_out[c["mkey"]]
-            info = {"case": c["id"], "ended_by": c.get("mode", "cancel"), "shape": toks(c["shape"]), "src": program(c["shape"]), "instant": c["instant"], "delay_us": c["delay_us"],
+            m = model_out[c["mkey"]] if c["mkey"] else None
+            info = {"case": c["id"], "ended_by": c.get("mode", "cancel"), "shape": toks(c["shape"]), "src": c.get("src") or program(c["shape"]), "instant": c["instant"], "delay_us": c["delay_us"],
                     "gomaxprocs": gmp, "observed": {"returned": returned, "latency_us": int(lat_us), "err": ec, "value": val,
                                                     "ticks": [int(t_ret), int(t_b), int(t_c)], "goroutines": [int(g0), int(g_after)],
                                                     "settled": settled}, "model": m}
@@ -379,7 +407,9 @@ def run(res):
             else:
                 lat.append(int(lat_us))
             # ---- correspondence: the observation is one the model allows
-            if not m["complete"]:
+            if m is None:
+                pass
+            elif not m["complete"]:
                 unexplored.add(c["mkey"])
             elif returned == "true" and ec not in m["results"] and not nomark:
                 corr_diffs.append(dict(info, why="the model allows %s, the implementation returned %s" % (m["results"], ec)))
